@@ -9,7 +9,7 @@ use winnow::error::StrContext;
 pub use winnow::{
     ascii::{alpha1, digit1, multispace0, multispace1},
     combinator::{
-        alt, cut_err, delimited, eof, fail, preceded, repeat, repeat_till, separated,
+        alt, cut_err, delimited, eof, fail, peek, preceded, repeat, repeat_till, separated,
         separated_pair, terminated,
     },
     error::{ContextError, StrContext::Label, StrContextValue},
@@ -23,6 +23,17 @@ pub fn expected(reason: &'static str) -> StrContext {
 
 pub fn label(name: &'static str) -> StrContext {
     StrContext::Label(name)
+}
+
+/// Succeeds, consuming nothing, when the input stands at the end of a word: before a blank, at the
+/// end of the input, or before one of the single-character tokens, which delimit themselves
+pub fn word_end(input: &mut &str) -> PResult<()> {
+    peek(alt((
+        multispace1.void(),
+        eof.void(),
+        one_of(['(', ')', '!', ',']).void(),
+    )))
+    .parse_next(input)
 }
 
 /// Trait used to add the ability to parse arbitrary types
